@@ -34,7 +34,8 @@ func (d *DevDriver) NormalizeRealm(ctx context.Context, r *schema.Realm) (nr *sc
 		return nil, err
 	}
 	defer func() {
-		if rerr := restore(ctx); rerr != nil {
+		// Restore the database also if the context was canceled (e.g., the command was interrupted).
+		if rerr := restore(context.WithoutCancel(ctx)); rerr != nil {
 			if err != nil {
 				rerr = fmt.Errorf("%w: %v", err, rerr)
 			}
@@ -112,7 +113,8 @@ func (d *DevDriver) NormalizeSchema(ctx context.Context, s *schema.Schema) (*sch
 		return nil, err
 	}
 	defer func() {
-		if rerr := restore(ctx); rerr != nil {
+		// Restore the database also if the context was canceled (e.g., the command was interrupted).
+		if rerr := restore(context.WithoutCancel(ctx)); rerr != nil {
 			if err != nil {
 				rerr = fmt.Errorf("%w: %v", err, rerr)
 			}
